@@ -250,6 +250,115 @@ func isParamCell(v ssa.Value) bool {
 	return isParam
 }
 
+// argsParam: the parameter in which fn receives the rendered argument values of an execution: a []string (the last
+// one, as ever), or failing that a struct of the driver package, passed by value, that holds them (wrapped).
+func argsParam(fn *ssa.Function) (p *ssa.Parameter, wrapped bool) {
+	for _, q := range fn.Params {
+		if isStringSlice(q.Type()) {
+			p = q
+		}
+	}
+	if p != nil {
+		return p, false
+	}
+	for _, q := range fn.Params {
+		if len(argValuesFields(q.Type())) > 0 {
+			p = q
+		}
+	}
+	return p, p != nil
+}
+
+// wrappedValuesRead: v is a read of a []string field of the struct parameter p (`p.values`), and that field of p is
+// never assigned in the function (a struct parameter whose fields are addressed lives in a local copy: the copy is
+// written once, from the parameter, and the field only read) — so all such reads yield the slice the caller passed.
+func wrappedValuesRead(v ssa.Value, p *ssa.Parameter) bool {
+	pa := path(v)
+	var fld *types.Var
+	for _, s := range pa.Steps {
+		if s.Elem || (s.Field != nil && fld != nil) {
+			return false
+		}
+		if s.Field != nil {
+			fld = s.Field
+		}
+	}
+	if fld == nil || !isStringSlice(fld.Type()) || !isStringSlice(v.Type()) {
+		return false
+	}
+	if _, isSlice := peel(v).(*ssa.Slice); isSlice {
+		return false // a re-slice p.values[:k] is not the slice whose length was tested
+	}
+	if pa.Root == ssa.Value(p) {
+		return true // read by Field instructions: the parameter is an immutable value
+	}
+	al, ok := pa.Root.(*ssa.Alloc)
+	if !ok || spilledParam(al) != ssa.Value(p) {
+		return false
+	}
+	for _, r := range referrers(al) {
+		fa, ok := r.(*ssa.FieldAddr)
+		if !ok || fieldOf(fa.X.Type(), fa.Field) != fld {
+			continue
+		}
+		for _, rr := range referrers(fa) {
+			switch rr.(type) {
+			case *ssa.UnOp, *ssa.DebugRef:
+			default:
+				return false
+			}
+		}
+	}
+	return true
+}
+
+// forwardsToMethod: w does nothing but call a module function m with one of its free variables as the first argument
+// (the receiver) and its own parameters as the remaining ones, and return what m returns — the synthetic wrapper of a
+// method value `x.m`, or the closure `func(a…) T { return x.m(a…) }`. k is the index of that free variable.
+func forwardsToMethod(w *ssa.Function) (m *ssa.Function, k int) {
+	if w == nil || len(w.Blocks) != 1 {
+		return nil, 0
+	}
+	var call *ssa.Call
+	var ret *ssa.Return
+	for _, i := range w.Blocks[0].Instrs {
+		switch x := i.(type) {
+		case *ssa.DebugRef:
+		case *ssa.Call:
+			if call != nil {
+				return nil, 0
+			}
+			call = x
+		case *ssa.Return:
+			ret = x
+		default:
+			return nil, 0
+		}
+	}
+	if call == nil || ret == nil || call.Call.IsInvoke() || len(call.Call.Args) != len(w.Params)+1 {
+		return nil, 0
+	}
+	if len(ret.Results) != 1 || ret.Results[0] != ssa.Value(call) {
+		return nil, 0
+	}
+	m = calleeFunc(&call.Call)
+	fv, isFv := call.Call.Args[0].(*ssa.FreeVar)
+	if m == nil || m.Blocks == nil || !isFv || len(m.Params) != len(call.Call.Args) {
+		return nil, 0
+	}
+	for j, p := range w.Params {
+		if call.Call.Args[j+1] != ssa.Value(p) {
+			return nil, 0
+		}
+	}
+	for j, v := range w.FreeVars {
+		if v == fv {
+			return m, j
+		}
+	}
+	return nil, 0
+}
+
 func arityRule(c *Ctx, rule string, anchor *ssa.Function) {
 	name := safeFname(anchor)
 	// binding may happen in a helper shared by the statement kinds: analyse the function that calls the binding function
@@ -272,20 +381,14 @@ func arityRule(c *Ctx, rule string, anchor *ssa.Function) {
 		return
 	}
 	if fn != anchor {
-		// the helper must receive the statement's own values
-		var avals ssa.Value
-		for _, p := range anchor.Params {
-			if sl, ok := p.Type().Underlying().(*types.Slice); ok {
-				if b, ok := sl.Elem().Underlying().(*types.Basic); ok && b.Kind() == types.String {
-					avals = p
-				}
-			}
-		}
+		// the helper must receive the statement's own values: the []string itself, the struct that wraps it, or the
+		// wrapped []string read from that struct (as an argument or as the receiver of a method of the struct)
+		avals, awrapped := argsParam(anchor)
 		okPass := false
 		allInstrs(anchor, func(i ssa.Instruction) {
 			if call, ok := i.(*ssa.Call); ok && calleeFunc(&call.Call) == fn {
 				for _, a := range call.Call.Args {
-					if a == avals && avals != nil {
+					if avals != nil && (a == ssa.Value(avals) || (awrapped && wrappedValuesRead(a, avals))) {
 						okPass = true
 					}
 				}
@@ -296,18 +399,33 @@ func arityRule(c *Ctx, rule string, anchor *ssa.Function) {
 			return
 		}
 	}
-	// the values parameter
+	// the values parameter; when the values arrive wrapped in a struct (`stmtArgs{values []string}`), the values are the
+	// []string field of that parameter that is bound: every binding call must be given a read of one and the same field,
+	// and that is the slice whose length the test must have looked at
 	var vals ssa.Value
-	for _, p := range fn.Params {
-		if sl, ok := p.Type().Underlying().(*types.Slice); ok {
-			if b, ok := sl.Elem().Underlying().(*types.Basic); ok && b.Kind() == types.String {
-				vals = p
+	vp, wrapped := argsParam(fn)
+	if vp == nil {
+		c.r.undecided(rule, name, "no []string parameter (and no struct parameter that holds the argument values)", c.w.pos(fn.Pos()))
+		return
+	}
+	vals = vp
+	if wrapped {
+		vals = nil
+		for _, b := range binds {
+			var arg ssa.Value
+			for _, a := range b.(*ssa.Call).Call.Args {
+				if isStringSlice(a.Type()) {
+					arg = a
+				}
+			}
+			if arg == nil || !wrappedValuesRead(arg, vp) || (vals != nil && !sameSliceSource(arg, vals)) {
+				c.r.undecided(rule, name, "the values bound are not read from (one field of) the struct in which the function receives the statement's argument values", c.w.ipos(b))
+				return
+			}
+			if vals == nil {
+				vals = arg
 			}
 		}
-	}
-	if vals == nil {
-		c.r.undecided(rule, name, "no []string parameter", c.w.pos(fn.Pos()))
-		return
 	}
 	isCountCall := func(v ssa.Value) *ssa.Call {
 		call, ok := peelConv(v).(*ssa.Call)
@@ -365,7 +483,7 @@ func arityRule(c *Ctx, rule string, anchor *ssa.Function) {
 			if k >= len(h.Params) {
 				continue
 			}
-			if a == vals {
+			if a == vals || (wrapped && sameSliceSource(a, vals)) {
 				pv = h.Params[k]
 			}
 			if isCount(a) {
@@ -835,6 +953,10 @@ func isLenOfField(v ssa.Value, f *types.Var) bool {
 // numInputRule: the number the arity test compares against is the highest placeholder number of the statement:
 // a running maximum over all Placeholder fields visited by Walk (which must visit every node: the callback always
 // returns true), starting at 0.
+// The maximum lives in a local variable the callback closes over, or in a field of a local struct object of which the
+// callback is a closure or a method value (`ps := placeholderScan{}; Walk(q, ps.visit); return int(ps.highest)`): then
+// the method is judged like the closure, with its receiver standing for the object — provided the object bound to the
+// method value is the one whose field is returned, and the object is used for nothing else.
 func numInputRule(c *Ctx, rule string) {
 	fn := c.a.NumInput
 	name := safeFname(fn)
@@ -842,10 +964,12 @@ func numInputRule(c *Ctx, rule string) {
 	eqT := c.w.namedType(pkgProto, "Query_Expression_Equal")
 	ph := structFieldNamed(eqT, "Placeholder")
 	var cb *ssa.Function
+	var mkcb *ssa.MakeClosure
 	allInstrs(fn, func(i ssa.Instruction) {
 		if call, ok := i.(*ssa.Call); ok && (calleeFunc(&call.Call) == c.a.Walk || calleeFunc(&call.Call) == c.a.WalkInner) && len(call.Call.Args) == 2 {
 			if mc, ok := call.Call.Args[1].(*ssa.MakeClosure); ok {
 				cb, _ = mc.Fn.(*ssa.Function)
+				mkcb = mc
 			}
 		}
 	})
@@ -853,8 +977,9 @@ func numInputRule(c *Ctx, rule string) {
 		c.r.undecided(rule, name, "the placeholder count is not computed by a Walk callback; the rule recognises a running maximum only", site)
 		return
 	}
-	// returned value: load of a cell initialised with 0
-	var cell ssa.Value
+	// returned value: load of a cell initialised with 0 — a local variable, or a field of a local struct object
+	var cell ssa.Value   // the variable, or the struct object
+	var cellF *types.Var // the field of the object (nil: the variable itself)
 	okRet := true
 	allInstrs(fn, func(i ssa.Instruction) {
 		ret, ok := i.(*ssa.Return)
@@ -866,11 +991,38 @@ func numInputRule(c *Ctx, rule string) {
 			okRet = false
 			return
 		}
-		cell = ld.X
+		if fa, isFa := ld.X.(*ssa.FieldAddr); isFa {
+			if obj, isAlloc := fa.X.(*ssa.Alloc); isAlloc {
+				cell, cellF = obj, fieldOf(fa.X.Type(), fa.Field)
+				return
+			}
+		}
+		cell, cellF = ld.X, nil
 	})
 	if !okRet || cell == nil {
 		c.r.bad(rule, name, "the function does not return the running maximum it computes", []string{site})
 		return
+	}
+	// the callback a method value x.visit: the method, whose receiver stands for the object bound — which must be the
+	// object whose field is returned (a scan into another object leaves the returned maximum at 0)
+	// (go/ssa's wrapper of the method value, or a hand-written closure of the same form: `func(e) bool { return x.visit(e) }`)
+	var recv ssa.Value
+	if m, k := forwardsToMethod(cb); m != nil {
+		if cellF != nil && k < len(mkcb.Bindings) && mkcb.Bindings[k] == cell {
+			recv = m.Params[0]
+		}
+		cb = m
+	}
+	// isMax: addr is the address of the running maximum, seen from fn or from the callback
+	isMax := func(addr ssa.Value) bool {
+		if cellF == nil {
+			return peelCell(addr) == cell
+		}
+		fa, ok := addr.(*ssa.FieldAddr)
+		if !ok || fieldOf(fa.X.Type(), fa.Field) != cellF {
+			return false
+		}
+		return (recv != nil && fa.X == recv) || peelCell(fa.X) == cell
 	}
 	// the running maximum starts at 0: explicitly, or as the zero value of a variable declared without initialiser
 	okInit := true
@@ -878,18 +1030,52 @@ func numInputRule(c *Ctx, rule string) {
 		okInit = false
 	}
 	allInstrs(fn, func(i ssa.Instruction) {
-		if st, ok := i.(*ssa.Store); ok && st.Addr == cell {
+		if st, ok := i.(*ssa.Store); ok && (st.Addr == cell || isMax(st.Addr)) {
 			if k, isK := constInt(st.Val); !isK || k != 0 {
 				okInit = false
 			}
 		}
 	})
+	why := ""
+	if !okInit {
+		why = "the maximum does not start at 0"
+	}
+	if cellF != nil && okInit {
+		// the object: created here, zero or with fields set one by one, handed to the callback and read — nothing else
+		// (copied from another object, passed to a helper that could set the field: not followed)
+		for _, r := range referrers(cell) {
+			switch x := r.(type) {
+			case *ssa.DebugRef:
+			case *ssa.MakeClosure:
+				if x != mkcb {
+					okInit = false
+				}
+			case *ssa.FieldAddr:
+				for _, rr := range referrers(x) {
+					switch y := rr.(type) {
+					case *ssa.DebugRef, *ssa.UnOp:
+					case *ssa.Store:
+						if y.Addr != ssa.Value(x) {
+							okInit = false
+						}
+					default:
+						okInit = false
+					}
+				}
+			default:
+				okInit = false
+			}
+		}
+		if !okInit {
+			why = "the object that holds the maximum is used in ways the rule does not follow (copied, passed on, or its field's address taken)"
+		}
+	}
 	// the callback: every store to the cell stores a Placeholder load under `that placeholder > current value`
-	nSt, okSt, why := 0, true, ""
+	nSt, okSt := 0, true
 	allInstrs(cb, func(i ssa.Instruction) {
 		switch x := i.(type) {
 		case *ssa.Store:
-			if peelCell(x.Addr) != cell {
+			if !isMax(x.Addr) {
 				return
 			}
 			nSt++
@@ -910,7 +1096,7 @@ func numInputRule(c *Ctx, rule string) {
 					continue
 				}
 				if srcField(a) == ph && c.fc.samePathLoad(a, x.Val) {
-					if ld, ok := b.(*ssa.UnOp); ok && peelCell(ld.X) == cell {
+					if ld, ok := b.(*ssa.UnOp); ok && ld.Op == token.MUL && isMax(ld.X) {
 						guard = true
 					}
 				}
